@@ -23,7 +23,7 @@ type Opts struct {
 var AllFeatures = []string{
 	"async", "err", "multi", "bind", "struct", "value", "sets", "lit", "ext", "ctxparam",
 	"composite", "basic", "args", "unneeded", "multi-inj", "multi-file", "dupparam",
-	"generic", "variadic", "variadic-functype", "want-unsupplied", "kalias", "extalias", "value-and-pointer", "rewrap", "struct-both-forms", "alias-basic", "ctx-provider", "implements-error", "adv-pkg-shadowed-by-later-decl",
+	"generic", "variadic", "variadic-functype", "want-unsupplied", "kalias", "extalias", "value-and-pointer", "rewrap", "struct-both-forms", "alias-basic", "ctx-provider", "implements-error", "adv-pkg-shadowed-by-later-decl", "value-literal", "multi-var-sets",
 	"async-struct", "ptrrecv", "aiface", "embedded",
 }
 
@@ -585,6 +585,16 @@ func (g *gen) genUnit(i int) {
 		}
 		g.vid++
 		h := uint32(rapid.IntRange(1, 1<<20).Draw(g.rt, "valh"))
+		// an untyped constant as value: kessoku.Value(42) / kessoku.Value("42")
+		for _, b := range []string{"int", "string"} {
+			if !g.basicsUsed[b] && g.allow("basic") && g.want("value-literal", "valliteral", 25) {
+				g.basicsUsed[b] = true
+				t = g.addType(Type{Kind: KBasic, Basic: b})
+				g.units = append(g.units, Elem{Kind: "value", Value: t, VID: g.vid, H: h, Literal: true})
+				g.supply(t, len(g.units)-1)
+				return
+			}
+		}
 		g.units = append(g.units, Elem{Kind: "value", Value: t, VID: g.vid, H: h})
 		g.supply(t, len(g.units)-1)
 		return
@@ -1025,6 +1035,11 @@ func (g *gen) genGroupsAndInjectors() {
 			}
 		}
 		c.Files[f].Injectors = append(c.Files[f].Injectors, inj)
+	}
+	for fi := range c.Files {
+		if len(c.Files[fi].Sets) >= 2 && g.want("multi-var-sets", "multivar", 40) {
+			c.Files[fi].MultiVar = true
+		}
 	}
 	// drop files without injectors and without sets
 	var files []File
